@@ -7,6 +7,7 @@ CXX  := g++
 
 # Two flavours (DESIGN.md section 2.1):
 #   asan (default): ASan + UBSan subset, preemption at synchronisation level
+#   plain         : asan without -mavx2 (bin2.plain.c); used by C17 in addition
 #   fine          : repo C sources compiled with -fsanitize=thread but linked
 #                   against our own __tsan_* runtime (sim/tsanrt.cpp), which
 #                   turns every cross-thread memory access into a preemption
@@ -24,7 +25,15 @@ CSAN     :=
 FINE_SRC :=
 FINEDEF  :=
 endif
-COMMON   := -O1 -g -fno-omit-frame-pointer $(SAN) -fPIC -mavx2 -Wno-error -w
+# plain: as asan, but without -mavx2, so that the simulated camera is built
+# with bin2.plain.c (what non-x64 targets ship) instead of bin2.avx2.c
+SIMD     := -mavx2
+ifeq ($(FLAVOUR),plain)
+B        := build/plain
+SIMD     :=
+FINEDEF  := -DVSIM_PLAIN=1
+endif
+COMMON   := -O1 -g -fno-omit-frame-pointer $(SAN) -fPIC $(SIMD) -Wno-error -w
 REPOINC  := \
   -I$(REPO)/acquire-core-libs/src/acquire-core-logger \
   -I$(REPO)/acquire-core-libs/src/acquire-core-platform/linux \
@@ -87,16 +96,14 @@ $(B)/vsim: $(REPO_OBJS) $(V_OBJS)
 define REPO_RULE_C
 $(call objname,$(1)): $(REPO)/$(1) sim/seams/$(subst /,__,$(basename $(1))).txt
 	@mkdir -p $$(dir $$@)
-	@echo "  CC  $(1)"; $(CC) $(RCFLAGS) -MMD -MP -c $$< -o $$@.tmp.o
+	@echo "  CC  $(1)"; $(CC) $(RCFLAGS) -MMD -MP -MT $$@ -MF $$(basename $$@).d -c $$< -o $$@.tmp.o
 	@if [ -s sim/seams/$(subst /,__,$(basename $(1))).txt ]; then objcopy --redefine-syms=sim/seams/$(subst /,__,$(basename $(1))).txt $$@.tmp.o $$@; rm -f $$@.tmp.o; else mv $$@.tmp.o $$@; fi
-	@mv -f $$@.tmp.d $$(basename $$@).d 2>/dev/null || true
 endef
 define REPO_RULE_CXX
 $(call objname,$(1)): $(REPO)/$(1) sim/seams/$(subst /,__,$(basename $(1))).txt
 	@mkdir -p $$(dir $$@)
-	@echo "  CXX $(1)"; $(CXX) $(RCXXFLAGS) -MMD -MP -c $$< -o $$@.tmp.o
+	@echo "  CXX $(1)"; $(CXX) $(RCXXFLAGS) -MMD -MP -MT $$@ -MF $$(basename $$@).d -c $$< -o $$@.tmp.o
 	@if [ -s sim/seams/$(subst /,__,$(basename $(1))).txt ]; then objcopy --redefine-syms=sim/seams/$(subst /,__,$(basename $(1))).txt $$@.tmp.o $$@; rm -f $$@.tmp.o; else mv $$@.tmp.o $$@; fi
-	@mv -f $$@.tmp.d $$(basename $$@).d 2>/dev/null || true
 endef
 $(foreach s,$(REPO_C),$(eval $(call REPO_RULE_C,$(s))))
 $(foreach s,$(REPO_CXX),$(eval $(call REPO_RULE_CXX,$(s))))
